@@ -104,6 +104,17 @@ pub struct Ctx {
     pub pool: Option<SmartCalc>,
 }
 
+/// reference observations shared by all worker threads (a fresh-calculator observation is a pure
+/// function of its key; sharing only saves rebuilding the same calculator once per thread)
+static SHARED_MEMO: std::sync::OnceLock<std::sync::Mutex<HashMap<String, String>>> = std::sync::OnceLock::new();
+
+pub fn shared_get(key: &str) -> Option<String> {
+    SHARED_MEMO.get_or_init(Default::default).lock().unwrap().get(key).cloned()
+}
+pub fn shared_put(key: String, val: String) {
+    SHARED_MEMO.get_or_init(Default::default).lock().unwrap().insert(key, val);
+}
+
 impl Ctx {
     pub fn new() -> Ctx {
         Ctx { calcs: HashMap::new(), built: 0, memo: HashMap::new(), pool: None }
